@@ -73,6 +73,7 @@ var c07Kinds = map[string]c07Kind{
 	"syntax-elsif":       {src: "{% if false %}a\n%NL%%AT%{% elsif a b c %}c{% endif %}", parseTime: true},
 	"syntax-when":        {src: "{% case 1 %}\n%NL%%AT%{% when 1 2 %}c{% endcase %}", parseTime: true},
 	"expand-tag-arg":     {src: "{% echo a%NL% {{ 1 | fail }} b %}", names: "verif-sentinel", cause: "sentinel", altLine: "{{ 1 | fail"},
+	"expand-block-arg":   {src: "{% wrapx a%NL% {{ 1 | fail }} b %}x{% endwrapx %}", names: "verif-sentinel", cause: "sentinel", altLine: "{{ 1 | fail"},
 	"located-filter-err": {src: "{% capture sn %}{% raw %}x {{ 1 | nosuchfilter }}{% endraw %}{% endcapture %}\n%AT%{{ sn |%NL% liquify }}", names: "nosuchfilter"},
 	"strict-undefined":   {src: "{{ undefined_name }}", strict: true},
 	"break-outside":      {src: "{% break %}", needsLoop: "none"},
@@ -207,6 +208,14 @@ var c07Locate = hx.Define("c07.locate", func(c *c07Case, s *hx.Sub) *hx.Violatio
 	// client code using the documented extension points: a tag that expands {{ }} in its argument, and a
 	// filter whose own error is a located error from another template
 	eng.RegisterTag("echo", func(ctx render.Context) (string, error) { return ctx.ExpandTagArg() })
+	eng.RegisterBlock("wrapx", func(ctx render.Context) (string, error) {
+		arg, err := ctx.ExpandTagArg()
+		if err != nil {
+			return "", err
+		}
+		inner, err := ctx.InnerString()
+		return arg + inner, err
+	})
 	eng.RegisterFilter("liquify", func(v string) (any, error) {
 		out, lerr := newEngine(nil).ParseTemplateLocation([]byte(v), "snippet.liquid", 40)
 		if lerr != nil {
